@@ -46,11 +46,18 @@ pub fn run_one(
                 "TX" => Swarm::tx(&mut rng, profile.faults),
                 _ => Swarm::mkt(&mut rng, profile.faults),
             };
+            let (adm, adm_share) = match profile.name {
+                "ADM" => (crate::actors_adm::AdmSwarm::adm(&mut rng), rng.range(250, 600) as u32),
+                "PAUSE" => (crate::actors_adm::AdmSwarm::pause(&mut rng), rng.range(400, 800) as u32),
+                _ => (crate::actors_adm::AdmSwarm::none(), 0),
+            };
             let steps = rng.range(50, 400);
             let mut ctx = Ctx {
                 world: &mut world,
                 rng: &mut rng,
                 swarm: &swarm,
+                adm: &adm,
+                adm_share,
                 mempool: Vec::new(),
             };
             for _ in 0..steps {
